@@ -9,6 +9,7 @@ import AnonCreds.Model.Range
 import AnonCreds.Model.Issue
 import AnonCreds.Model.Codecs
 import AnonCreds.Model.Membership
+import AnonCreds.Model.Create
 /-
 Line-protocol driver: one request per line on stdin, one reply per line on stdout.
 Unknown or malformed requests answer `bad-op` (never a default value).
@@ -431,7 +432,9 @@ def planOp (toks : List String) : Option String :=
   let entries : String → List String := fun s => if s = "-" then [] else s.splitOn ";"
   let items : String → List String := fun s => if s = "-" then [] else s.splitOn ","
   match toks with
-  | ["vf.plan", offset, stmts, proofs, disclosed] =>
+  | [op, offset, stmts, proofs, disclosed] =>
+    if op != "vf.plan" && op != "vf.planwhy" then none else
+    let why := op == "vf.planwhy"
     -- statements; for signature statements also the number of messages of the key
     let stmt? : String → Option (Stmt × Nat) := fun tok =>
       match tok.splitOn "/" with
@@ -482,14 +485,50 @@ def planOp (toks : List String) : Option String :=
         let all := ds.flatMap (·.2)
         let enc : ClaimData → Fr := fun c => ((all.find? (fun e => e.2.1 == c)).map (·.2.2)).getD 0
         let pres : Pres Fr := ⟨prs, ds.map fun d => (d.1, d.2.map fun e => (e.1, e.2.1))⟩
-        let sigs := stmtList.filterMap fun | .sig s => some s | _ => none
-        let preds := stmtList.filterMap fun | .pred q => some q | _ => none
-        some (match firstSome (planSig enc pres) sigs with
-          | some _ => "plan-err"
-          | none => match firstSome (planPred stmtList pres) preds with
-            | some _ => "plan-err"
-            | none => "plan-ok")
+        some (match planStage enc stmtList pres with
+          | some w => if why then "plan-err " ++ w else "plan-err"
+          | none => "plan-ok")
       | _, _ => none
+    | _, _ => none
+  | _ => none
+
+/-- `cr.ok`: validation logic of `Presentation::create` on a structural description of the holder's
+credentials and the (possibly inconsistent) schema -/
+def createOp (toks : List String) : Option String :=
+  open AC.Create in
+  let entries : String → List String := fun s => if s = "-" then [] else s.splitOn ";"
+  let items : String → List String := fun s => if s = "-" then [] else s.splitOn ","
+  let optInt : String → Option (Option Int) := fun s => if s = "-" then some none else (s.toInt?).map some
+  match toks with
+  | ["cr.ok", creds, stmts] =>
+    let cred? : String → Option (String × CredI) := fun tok =>
+      match tok.splitOn "/" with
+      | [k, "M"] => some (k, .membership)
+      | [k, "S", cs] =>
+        ((items cs).mapM fun (c : String) => match c.splitOn ":" with
+          | [e, n] => match scalarOf? e, optInt n with
+            | some e, some n => some (⟨e, n⟩ : ClaimI)
+            | _, _ => none
+          | _ => none).map fun cs => (k, .sig cs)
+      | _ => none
+    let stmt? : String → Option CStmt := fun tok =>
+      match tok.splitOn "/" with
+      | ["S", id, disclosed, labels, nKey] => nKey.toNat?.map fun n => .sig id (items disclosed) (items labels) n
+      | ["E", id, refs] =>
+        ((items refs).mapM fun (r : String) => match r.splitOn ":" with
+          | [a, b] => b.toNat?.map fun b => (a, b)
+          | _ => none).map fun refs => .equality id refs
+      | ["X", kind, id, ref, claim] =>
+        match kindOf? kind, claim.toNat? with
+        | some kind, some claim => some (.simple kind id ref claim)
+        | _, _ => none
+      | ["R", id, ref, sigId, claim, lower, upper] =>
+        match claim.toNat?, optInt lower, optInt upper with
+        | some claim, some lower, some upper => some (.range id ref sigId claim lower upper)
+        | _, _, _ => none
+      | _ => none
+    match (entries creds).mapM cred?, (entries stmts).mapM stmt? with
+    | some creds, some stmts => some (toString (createOk creds stmts))
     | _, _ => none
   | _ => none
 
@@ -523,6 +562,9 @@ def answer (d : DState) (line : String) : DState × String :=
   | some r => (d, r)
   | none =>
   match planOp toks with
+  | some r => (d, r)
+  | none =>
+  match createOp toks with
   | some r => (d, r)
   | none =>
   match regOp d toks with
